@@ -19,6 +19,8 @@ import (
 	"time"
 
 	intoto "github.com/in-toto/in-toto-golang/in_toto"
+	"io"
+	"testing/iotest"
 	"verif/gen"
 	"verif/mcx"
 	"verif/ref"
@@ -28,8 +30,15 @@ var keyNames = []string{"ed1", "ed2", "rsa2048", "rsa3072", "p224", "p256", "p38
 	// raw material with a boundary byte value at one end (see cmd/genkeys): public key starting / ending with
 	// 0x00, 0x20, 0x0a; seed starting with 0x0a, 0x00 and ending with 0x20; P-256 X / D with a leading zero byte
 	"edz0", "edz1", "edw0", "edw1", "edsw", "edsz", "p256xz", "p256dz"}
-var encodings = []string{"pkcs8", "pkcs1", "sec1", "pub", "cert"}
-var framings = []string{"plain", "leading-text", "trailing-text", "second-block", "crlf", "leading-blank-lines"}
+
+// cert = self-signed; cert-by-<family>-ca = issued by a CA whose key is of that family (the issuer's algorithm
+// says nothing about the certified key)
+var encodings = []string{"pkcs8", "pkcs1", "sec1", "pub", "cert", "cert-by-rsa-ca", "cert-by-ecdsa-ca", "cert-by-ed25519-ca"}
+
+// reader-*: the bytes are unchanged, the reader hands them out one byte / half a request at a time (reader APIs only)
+var framings = []string{"plain", "leading-text", "trailing-text", "second-block", "crlf", "leading-blank-lines", "leading-100k-newlines", "reader-one-byte", "reader-half"}
+
+var readerMode string
 var apis = []string{"LoadKey", "LoadKeyDefaults", "LoadKeyReader", "LoadKeyReaderDefaults"}
 
 type params struct {
@@ -69,11 +78,32 @@ func certPEM(name string) []byte {
 	return certCache[name]
 }
 
+// issuedCertPEM: a certificate for pool key name, issued by a CA that uses pool key caName.
+func issuedCertPEM(name, caName string) []byte {
+	ck := name + "<-" + caName
+	if b, ok := certCache[ck]; ok {
+		return b
+	}
+	ca, k := gen.Key(caName), gen.Key(name)
+	nb, na := time.Now().Add(-time.Hour), time.Now().Add(24*time.Hour)
+	cat := &x509.Certificate{SerialNumber: big.NewInt(1), Subject: pkix.Name{CommonName: "ca " + caName}, NotBefore: nb, NotAfter: na, IsCA: true, BasicConstraintsValid: true, KeyUsage: x509.KeyUsageCertSign}
+	lt := &x509.Certificate{SerialNumber: big.NewInt(8), Subject: pkix.Name{CommonName: name}, NotBefore: nb, NotAfter: na}
+	der, err := x509.CreateCertificate(rand.Reader, lt, cat, k.Signer.Public(), ca.Signer)
+	if err != nil {
+		certCache[ck] = nil
+		return nil
+	}
+	certCache[ck] = pem.EncodeToMemory(&pem.Block{Type: "CERTIFICATE", Bytes: der})
+	return certCache[ck]
+}
+
 // material returns the PEM bytes of key name in the given encoding (nil if the encoding does not apply).
 func material(name, enc string) []byte {
 	switch enc {
 	case "cert":
 		return certPEM(name)
+	case "cert-by-rsa-ca", "cert-by-ecdsa-ca", "cert-by-ed25519-ca":
+		return issuedCertPEM(name, map[string]string{"cert-by-rsa-ca": "rsa2048b", "cert-by-ecdsa-ca": "p256b", "cert-by-ed25519-ca": "ed9"}[enc])
 	}
 	b, err := os.ReadFile(filepath.Join(gen.KeyDir(), name+"."+enc+".pem"))
 	if err != nil {
@@ -94,6 +124,8 @@ func frame(pemBytes []byte, framing string) []byte {
 		return bytes.ReplaceAll(pemBytes, []byte("\n"), []byte("\r\n"))
 	case "leading-blank-lines":
 		return append([]byte("\n\n  \n"), pemBytes...)
+	case "leading-100k-newlines":
+		return append(bytes.Repeat([]byte("\n"), 100000), pemBytes...)
 	}
 	return pemBytes
 }
@@ -126,10 +158,20 @@ func load(k *intoto.Key, c *mcx.Ctx, data []byte, api string, p *params) (err er
 	case "LoadKeyDefaults":
 		return k.LoadKeyDefaults(path), ""
 	case "LoadKeyReader":
-		return k.LoadKeyReader(bytes.NewReader(data), p.Scheme, p.Algs), ""
+		return k.LoadKeyReader(reader(data), p.Scheme, p.Algs), ""
 	default:
-		return k.LoadKeyReaderDefaults(bytes.NewReader(data)), ""
+		return k.LoadKeyReaderDefaults(reader(data)), ""
 	}
+}
+
+func reader(data []byte) io.Reader {
+	switch readerMode {
+	case "reader-one-byte":
+		return iotest.OneByteReader(bytes.NewReader(data))
+	case "reader-half":
+		return iotest.HalfReader(bytes.NewReader(data))
+	}
+	return bytes.NewReader(data)
 }
 
 // expectation for loading data with the given parameters, from crypto/x509 directly.
@@ -212,6 +254,14 @@ func judge(c *mcx.Ctx, cs Case) (obs, sig, class string) {
 			return "encoding does not apply", "", "skip"
 		}
 		data = frame(data, cs.Framing)
+		readerMode = ""
+		if strings.HasPrefix(cs.Framing, "reader-") {
+			if cs.API == "LoadKey" || cs.API == "LoadKeyDefaults" {
+				return "reader framing does not apply to a file", "", "skip"
+			}
+			readerMode = cs.Framing
+			defer func() { readerMode = "" }()
+		}
 		var p *params
 		if cs.API == "LoadKey" || cs.API == "LoadKeyReader" {
 			for _, x := range paramMenu(kindOf(cs.Key)) {
@@ -515,7 +565,7 @@ func replay(c *mcx.Ctx, raw json.RawMessage) (string, string) {
 func init() {
 	mcx.Register(&mcx.Driver{
 		ID: "C19", Run: run, Replay: replay,
-		Rule: "full product over the committed key pool: key {Ed25519 x2, RSA-2048, RSA-3072, P-224, P-256, P-384, P-521, six Ed25519 keys whose public key or seed starts or ends with 0x00 / 0x20 / 0x0a, two P-256 keys whose X coordinate resp. private scalar starts with a zero byte} x encoding {PKCS#8, PKCS#1, SEC1 private; PKIX public; X.509 certificate} where it applies x framing {plain, leading text, trailing text, second PEM block, CRLF, leading blank lines} x API {LoadKey, LoadKeyDefaults, LoadKeyReader, LoadKeyReaderDefaults} x 7 (scheme, hash-algorithm) parameter sets for the explicit APIs (quick: all sets on plain framing, the valid set on the others); " +
+		Rule: "full product over the committed key pool: key {Ed25519 x2, RSA-2048, RSA-3072, P-224, P-256, P-384, P-521, six Ed25519 keys whose public key or seed starts or ends with 0x00 / 0x20 / 0x0a, two P-256 keys whose X coordinate resp. private scalar starts with a zero byte} x encoding {PKCS#8, PKCS#1, SEC1 private; PKIX public; X.509 certificate self-signed and issued by an RSA / ECDSA / Ed25519 CA} where it applies x framing {plain, leading text, trailing text, second PEM block, CRLF, leading blank lines, 100 kB of leading newlines, a reader that delivers one byte / half a request at a time} x API {LoadKey, LoadKeyDefaults, LoadKeyReader, LoadKeyReaderDefaults} x 7 (scheme, hash-algorithm) parameter sets for the explicit APIs (quick: all sets on plain framing, the valid set on the others); " +
 			"histories: a second load into a Key object that already holds another key, for every ordered pair of 3 keys x 5 encodings, with default and explicit parameters; one identifier across all forms of a pair and pairwise different identifiers; sign(private form) x verify(public / certificate form) for same and other pairs incl. independent crypto; every single-byte substitution (255 values) and every truncation of the DER of the smallest encodings (Ed25519 PKIX and PKCS#8, P-224 PKIX; thorough: + P-256 SEC1); foreign material (empty, garbage, CSR, encrypted PKCS#8, X25519, PKCS#1 public, wrong label, nil reader, missing file). " +
 			"Oracle: crypto/x509 directly decides what the material is; type, default scheme, public half, halves present and ref.KeyID must agree; never a panic. states = cases.",
 		Assumptions: []string{"key values beyond the pool and the SPIFFE SVID conversion (internal package) are outside", "certificates are self-signed at run time from pool keys (the key id does not depend on the certificate bytes)"},
